@@ -80,7 +80,17 @@ func evalCase(c *hist.Case) (kind, sig, msg string) {
 	pc := c.Client()
 	pub, unpub := c.Stores()
 	var opts []document.ResolutionOption
-	if add := c.Additional(); len(add) > 0 {
+	add := c.Additional()
+	if c.ForeignAdditional {
+		// the create operation of another DID among the caller-supplied operations, anchored before everything else:
+		// filed under its own suffix, and filed under the suffix that is being resolved
+		foreign := hist.NewCreate(hist.CreateSpec{Name: "foreign-create", Code: c.Code, Recovery: keys.Get(keys.P256, "c02-foreign", 0), Update: keys.Get(keys.P256, "c02-foreign", 1), Markers: map[string]interface{}{"foreign": "1"}})
+		own := foreign.At(0, 0, "ref-foreign-own-suffix", 0).Op
+		forged := foreign.At(0, 0, "ref-foreign-forged-suffix", 0).Op
+		forged.UniqueSuffix = c.Suffix
+		add = append(add, own, forged)
+	}
+	if len(add) > 0 {
 		opts = append(opts, document.WithAdditionalOperations(add))
 	}
 	got := res.Resolve(pc, c.Suffix, pub, unpub, opts...)
@@ -334,6 +344,8 @@ func TestRapidCompetitors(t *testing.T) {
 				ao[k] = c.AdditionalOrder[j]
 			}
 			c.AdditionalOrder = ao
+			// ... and now and then the caller also hands over the create operation of another DID
+			c.ForeignAdditional = rapid.IntRange(0, 2).Draw(t, "foreignAdditional") == 0
 		}
 		kind, sig, msg := evalCase(c)
 		comp := competitors(c)
